@@ -41,7 +41,7 @@ def build_pools(rng):
     G = []
     # Duration
     base = rng.choice([0, DAY, -DAY, rng.randint(gen.DUR_MIN_NS + 10, gen.DUR_MAX_NS - 10), 10**9 * rng.randint(-10**6, 10**6)])
-    ns_vals = [base + k for k in (-1, 0, 1, 100, -100)] + [gen.DUR_MIN_NS, gen.DUR_MAX_NS, 0, DAY, -DAY, DAY - 1, -DAY + 1] + [rng.randint(-10**6, 10**6) for _ in range(4)]
+    ns_vals = [base + k for k in (-1, 0, 1, 100, -100)] + [gen.DUR_MIN_NS, gen.DUR_MAX_NS, 0, DAY, -DAY, 2 * DAY, -3 * DAY, 48 * 3600 * 10**9 + 10**9, DAY - 1, -DAY + 1] + [rng.randint(-10**6, 10**6) for _ in range(4)]
     items = []
     for n in ns_vals:
         if not gen.DUR_MIN_NS <= n <= gen.DUR_MAX_NS: continue
@@ -50,6 +50,12 @@ def build_pools(rng):
         if gen.DUR_MIN_NS <= d * DAY <= gen.DUR_MAX_NS:
             items.append((n, n, None, Duration.from_days(d) + Duration.from_nanoseconds(r), "days+ns"))
         if n % 100 == 0: items.append((n, n, None, Duration.from_ticks(n // 100), "from_ticks"))
+        for unit_, u_ in (("days", DAY), ("hours", 3600 * 10**9), ("seconds", 10**9), ("milliseconds", 10**6)):
+            if n % u_ == 0 and abs(n // u_) < 2**50:
+                try:
+                    items.append((n, n, None, getattr(Duration, "from_" + unit_)(float(n // u_)), f"from_{unit_}(float)"))
+                except Exception:  # noqa: BLE001
+                    pass
     G.append(("Duration", True, items))
     # Instant
     base = rng.choice([0, rng.randint(gen.INST_MIN_NS + 10, gen.INST_MAX_NS - 10)])
